@@ -100,6 +100,14 @@ func vAssert(c bool, label string) {
 
 func vReach(label string) { vReached = append(vReached, label) }
 
+// vReachIdx records that entry k of an n-entry table was carried to the end
+// of the harness; ./check requires every index 0..n-1 to be reached on some
+// path (a table entry that never finishes is reported as vacuous, exit 2).
+func vReachIdx(prefix string, k, n int) {
+	vReach(fmt.Sprintf("%s:n=%d", prefix, n))
+	vReach(fmt.Sprintf("%s:%d", prefix, k))
+}
+
 func vObserve(name string, v interface{}) {
 	vObserved = append(vObserved, name+"="+vFmt(v))
 }
